@@ -122,8 +122,38 @@ def gen_competition(rng):
     if rng.random() < 0.3: rng.shuffle(lines)
     return lines
 
+def gen_awkward_exact(rng):
+    """Splits and consolidations by ratios whose inverse does not terminate (3, 7, 1.5 ...) applied to holdings that
+    divide exactly, then a sale of the whole (or half, or one share too many) of the holding: every share count the
+    code computes is an exact decimal, so no 28-digit residue can excuse a difference."""
+    t = rng.choice(TICKS); d = start_date(rng); r = rng.choice(["3", "6", "7", "9", "1.5", "0.3", "12"])
+    k = rng.choice(["UNSPLIT", "UNSPLIT", "SPLIT"])
+    unit = F(r) if k == "UNSPLIT" else F(1)
+    q0 = unit * rng.choice([1, 2, 5, 10, 40]) * rng.choice([1, 3])
+    lines = [Line(d, t, "BUY", dec_str(q0), rng.choice(PRICE), "GBP", rng.choice(FEES))]
+    held = q0
+    if rng.random() < 0.4:
+        d = d + datetime.timedelta(days=rng.choice([1, 10, 45]))
+        q1 = unit * rng.choice([1, 4]); lines.append(Line(d, t, "BUY", dec_str(q1), rng.choice(PRICE), "GBP", None)); held += q1
+    d = d + datetime.timedelta(days=rng.choice([0, 1, 20, 40]))
+    lines.append(Line(d, t, k, r)); held = held / F(r) if k == "UNSPLIT" else held * F(r)
+    if rng.random() < 0.25:
+        d = d + datetime.timedelta(days=rng.choice([0, 1, 5]))
+        k2 = "SPLIT" if k == "UNSPLIT" else "UNSPLIT"
+        lines.append(Line(d, t, k2, r)); held = held * F(r) if k2 == "SPLIT" else held / F(r)
+    d = d + datetime.timedelta(days=rng.choice([1, 3, 35, 60]))
+    sell = rng.choice([held, held, held / 2, held + 1, held - 1])
+    if sell <= 0: sell = held
+    lines.append(Line(d, t, "SELL", dec_str(sell), rng.choice(PRICE), "GBP", rng.choice(FEES)))
+    if rng.random() < 0.4:
+        d = d + datetime.timedelta(days=rng.choice([2, 10, 31]))
+        lines.append(Line(d, t, "BUY", rng.choice(["3", "10", "21"]), rng.choice(PRICE), "GBP", None))
+    if rng.random() < 0.2: rng.shuffle(lines)
+    return lines
+
 def family(rng, kind="mixed"):
     r = rng.random()
+    if kind in ("mixed", "splits", "noevents") and r > 0.92: return gen_awkward_exact(rng)
     if kind == "plain":     # no splits, no events
         return gen_ledger(rng, events=0, splits=0)
     if kind == "noevents":
